@@ -19,8 +19,15 @@ pub struct Monitor {
     qcs: Vec<QC>,
     /// rounds for which the node has been given (or could assemble) a QC or TC
     evidence: HashSet<u64>,
+    /// the same, without what only follows from a tally of delivered votes
+    hard_evidence: HashSet<u64>,
     /// rounds for which the node was shown a certificate that does NOT verify (C04)
     invalid_shown: HashSet<u64>,
+    /// (hash, round, member) named by a vote that does not verify (C04: must leave no trace)
+    invalid_vote_names: HashSet<([u8; 32], u64, u64)>,
+    /// a quorum of valid votes of OTHER members for (hash, round) was completed by the last stimulus
+    /// while the node could not be past `round`: it must propose round+1 on that QC now (C19/C04)
+    expect_qc: Option<([u8; 32], u64)>,
     /// delivered valid votes: (hash, round) -> signer ids
     votes_in: HashMap<([u8; 32], u64), HashSet<u64>>,
     /// delivered valid timeouts: round -> signer ids
@@ -53,7 +60,10 @@ impl Monitor {
             blocks: HashMap::new(),
             qcs: vec![],
             evidence: HashSet::new(),
+            hard_evidence: HashSet::new(),
             invalid_shown: HashSet::new(),
+            invalid_vote_names: HashSet::new(),
+            expect_qc: None,
             votes_in: HashMap::new(),
             timeouts_in: HashMap::new(),
             batches: HashSet::new(),
@@ -128,6 +138,7 @@ impl Monitor {
         if q.round > 0 && !self.qcs.iter().any(|x| x.hash == q.hash && x.round == q.round) {
             self.qcs.push(q.clone());
         }
+        self.hard_evidence.insert(q.round);
         self.evidence.insert(q.round);
     }
 
@@ -147,7 +158,8 @@ impl Monitor {
                     let q = b.qc.clone();
                     self.note_qc(&q);
                     if let Some(t) = &b.tc {
-                        self.evidence.insert(t.round);
+                        self.hard_evidence.insert(t.round);
+        self.evidence.insert(t.round);
                     }
                 } else {
                     if !Self::valid_qc(u, &b.qc) {
@@ -164,12 +176,27 @@ impl Monitor {
                 if Self::stake_of(u, &v.author) > 0 && v.signature.verify(&vote_digest(&v.hash, v.round), &v.author).is_ok() {
                     let id = u.key_id(&v.author);
                     let e = self.votes_in.entry((v.hash.0, v.round)).or_default();
+                    let others_before = Self::weight(u, &e.iter().cloned().filter(|x| *x != self.node).collect());
                     e.insert(id);
+                    let others_after = Self::weight(u, &e.iter().cloned().filter(|x| *x != self.node).collect());
                     let mut ids = e.clone();
                     ids.insert(self.node); // the node may add its own vote
+                    // "exactly when": the others alone now hold a quorum for this block; if the node
+                    // cannot be past the vote's round (no certificate of that round or above was ever
+                    // available to it) and it leads the next round, the QC and its proposal are due
+                    if others_before < u.quorum()
+                        && others_after >= u.quorum()
+                        && leader_of(self.n, v.round + 1) == self.node
+                        && !self.hard_evidence.iter().any(|r| *r >= v.round)
+                        && !self.own_proposals.iter().any(|b| b.round == v.round + 1)
+                    {
+                        self.expect_qc = Some((v.hash.0, v.round));
+                    }
                     if Self::weight(u, &ids) >= u.quorum() {
                         self.evidence.insert(v.round);
                     }
+                } else if Self::stake_of(u, &v.author) > 0 {
+                    self.invalid_vote_names.insert((v.hash.0, v.round, u.key_id(&v.author)));
                 }
             }
             Stim::Msg(ConsensusMessage::Timeout(t)) => {
@@ -185,7 +212,8 @@ impl Monitor {
                     let mut ids = e.clone();
                     ids.insert(self.node);
                     if Self::weight(u, &ids) >= u.quorum() {
-                        self.evidence.insert(t.round);
+                        self.hard_evidence.insert(t.round);
+        self.evidence.insert(t.round);
                     }
                 } else if !Self::valid_qc(u, &t.high_qc) {
                     self.invalid_shown.insert(t.high_qc.round);
@@ -193,7 +221,8 @@ impl Monitor {
             }
             Stim::Msg(ConsensusMessage::TC(t)) => {
                 if Self::valid_tc(u, t) {
-                    self.evidence.insert(t.round);
+                    self.hard_evidence.insert(t.round);
+        self.evidence.insert(t.round);
                 } else {
                     self.invalid_shown.insert(t.round);
                 }
@@ -382,7 +411,8 @@ impl Monitor {
                     if self.own_tcs.iter().any(|x| x.round == t.round) {
                         rep.finding("impl_vs_property", "C19:tc-formed-twice", format!("second TC for round {}", t.round), replay.clone());
                     }
-                    self.evidence.insert(t.round);
+                    self.hard_evidence.insert(t.round);
+        self.evidence.insert(t.round);
                     self.own_tcs.push(t.clone());
                 }
                 ConsensusMessage::Propose(b) => {
@@ -424,6 +454,19 @@ impl Monitor {
                     }
                 }
                 ConsensusMessage::SyncRequest(..) => {}
+            }
+        }
+        // --- a quorum of valid votes must yield the QC and the proposal (C19 "exactly when"; C04: a vote
+        // that was rejected earlier must not stand in the way)
+        if let Some((h, r)) = self.expect_qc.take() {
+            let proposed = self.own_proposals.iter().any(|b| b.round == r + 1 && b.qc.hash.0 == h);
+            if !proposed {
+                let voters = self.votes_in.get(&(h, r)).cloned().unwrap_or_default();
+                let blocked: Vec<u64> = voters.iter().cloned().filter(|m| self.invalid_vote_names.contains(&(h, r, *m))).collect();
+                rep.finding("impl_vs_property", "C19:qc-missed", format!("valid votes of members {:?} (a quorum without the node) for one block of round {} were delivered to the node, leader of round {}, which cannot be past round {}; it proposed nothing on that QC", voters, r, r + 1, r), replay.clone());
+                if !blocked.is_empty() {
+                    rep.finding("impl_vs_property", "C04:rejected-message-changed-behaviour", format!("round {}: a vote naming member(s) {:?} that does not verify was delivered (and must have been rejected) before their genuine votes; afterwards the genuine quorum no longer produced a QC", r, blocked), replay.clone());
+                }
             }
         }
         // --- commits
